@@ -1269,7 +1269,6 @@ func (hv *Hash) ToString2(b io.Writer, s px.FormatContext, f px.Format, delim by
 	switch f.FormatChar() {
 	case 'a':
 		WrapArray3(hv).ToString(b, s, g)
-		return
 	case 'h', 's', 'p':
 		indent := s.Indentation()
 		indent = indent.Indenting(f.IsAlt() || indent.IsIndenting())
